@@ -98,5 +98,40 @@ func c17g(c *Ctx) {
 			c.Bad(fk+"/writes-font-table["+pretty(c.term(fn, target))+"]", c.W.Pos(in.Pos()), fn.Name()+" "+what+" the shared font table ("+pretty(c.term(fn, target))+"): one text's format() parameters — or the content of a poryswitch case that is not selected — would change how later texts are laid out")
 		})
 	}
+	// what was decoded is what is used: after json.Unmarshal has filled a configuration value, the
+	// function that decodes it stores nothing more into it (no entry filtered, no table replaced by
+	// a "completed" copy made in place)
+	nDec := 0
+	for _, fn := range c.W.Funcs {
+		if isTestFunc(c.W, fn) || len(fn.Blocks) == 0 {
+			continue
+		}
+		for _, ci := range callsIn(fn) {
+			if calleeName(ci) != "encoding/json.Unmarshal" || len(ci.Common().Args) != 2 {
+				continue
+			}
+			tgt := ci.Common().Args[1]
+			if mi, ok := tgt.(*ssa.MakeInterface); ok {
+				tgt = mi.X
+			}
+			a, ok := tgt.(*ssa.Alloc)
+			if !ok {
+				continue
+			}
+			nDec++
+			k := 0
+			instrs(fn, func(in ssa.Instruction) {
+				st, isSt := in.(*ssa.Store)
+				if !isSt || rootValue(st.Addr) != ssa.Value(a) || st.Addr == ssa.Value(a) {
+					return
+				}
+				if _, found := existsPath(pathQuery{from: after(ci.(ssa.Instruction)), target: func(x ssa.Instruction) bool { return x == ssa.Instruction(st) }}); found {
+					k++
+					c.Bad(fmt.Sprintf("%s/decoded-value-edited#%d", c.W.FuncKey(fn), k), c.W.Pos(st.Pos()), fn.Name()+" stores "+pretty(c.term(fn, st.Val))+" into the value it has just decoded ("+pretty(c.term(fn, st.Addr))+"): the configuration in use is no longer what the file says")
+				}
+			})
+		}
+	}
+	c.Check(nDec >= 1, "decoded-values", "-", fmt.Sprintf("%d decoded configuration values followed", nDec), "no json.Unmarshal into a local configuration value found")
 	c.Check(nBad == 0, "font-table/read-only", "-", fmt.Sprintf("%d writes into FontConfig / Fonts values, all into locals under construction", n), "the shared font table is written while parsing")
 }
